@@ -9,8 +9,16 @@
      model passes the current namespace [ns] and its ancestors [stk] as arguments;
    * a namespace dictionary is an association list in insertion order; assignment to an
      existing key replaces in place (Python dict);
-   * an exception is a sticky error in the state: every later step is a no-op. *)
-From TxV Require Import Core.Base.
+   * an exception is a sticky error in the state: every later step is a no-op.
+
+   Facts taken from the current source on every run (Gen/SrcImports.v, tools/translate/imports_tr.py):
+   the search steps of __getitem__ (lookup_steps), where a qualified name is split, whether the
+   import name is normalised, whether an import is registered on every import statement, the
+   import list a new namespace starts with, and the construction of _tx_fqn.  The functions
+   named *_doc are the documented behaviour; Proofs/ImportsProofs.v shows that the functions
+   driven by the generated facts coincide with them (an obligation that breaks when the source
+   changes). *)
+From TxV Require Import Core.Base Gen.SrcImports.
 
 Definition DOT : N := 46%N.
 (* "__base__" *)
@@ -54,11 +62,21 @@ Definition nonempty (s : list N) : bool := match s with [] => false | _ => true 
 Definition norm_dots (s : list N) : list N := join_dot (filter nonempty (split_dot s)).
 
 (* _new_import: the import name is relative to the folder of the importing grammar *)
+Definition rel_import (cur imp : list N) : list N :=
+  match rsplit1 cur with
+  | Some (p, _) => p ++ DOT :: imp
+  | None => imp
+  end.
 Definition abs_import (cur imp : list N) : list N :=
-  norm_dots (match rsplit1 cur with
-             | Some (p, _) => p ++ DOT :: imp
-             | None => imp
-             end).
+  if normalise_import then norm_dots (rel_import cur imp) else rel_import cur imp.
+
+(* s.split(".", 1) when "." in s *)
+Fixpoint split1 (s : list N) : option (list N * list N) :=
+  match s with
+  | [] => None
+  | c :: r => if N.eqb c DOT then Some ([], r)
+              else match split1 r with Some (p, l) => Some (c :: p, l) | None => None end
+  end.
 
 (* ---------------------------------------------------------------- association lists *)
 Section Assoc.
@@ -94,8 +112,13 @@ Notation fsys := (list (list N * gfile)) (only parsing).
 (* ---------------------------------------------------------------- meta-model state *)
 Record cls := { c_id : nat; c_ns : list N; c_name : list N }.
 
-(* _cls_fqn *)
+(* _cls_fqn, as found in the source *)
 Definition fqn (c : cls) : list N :=
+  if mem_str (c_ns c) fqn_bare then c_name c
+  else (if fqn_ns_whole then c_ns c
+        else match rsplit1 (c_ns c) with Some (_, l) => l | None => c_ns c end) ++ fqn_sep ++ c_name c.
+(* the documented qualified name: file-based namespace, a dot, the rule name *)
+Definition fqn_doc (c : cls) : list N :=
   if str_eqb (c_ns c) BASE then c_name c else c_ns c ++ DOT :: c_name c.
 
 Inductive error :=
@@ -135,7 +158,7 @@ Definition base_dict : list (list N * cls) :=
 
 (* TextXMetaModel.__init__ up to (not including) entering the main namespace *)
 Definition init : st :=
-  {| spaces := [(BASE, base_dict)]; imported := [(BASE, [BASE])]; created := length base_names;
+  {| spaces := [(BASE, base_dict)]; imported := [(BASE, initial_imports)]; created := length base_names;
      loads := []; done := []; links := []; backs := []; serr := None |}.
 
 Definition has_ns (s : st) (ns : list N) : bool :=
@@ -143,7 +166,7 @@ Definition has_ns (s : st) (ns : list N) : bool :=
 
 (* _enter_namespace for a namespace that does not exist yet *)
 Definition enter (ns : list N) (s : st) : st :=
-  {| spaces := spaces s ++ [(ns, [])]; imported := imported s ++ [(ns, [BASE])];
+  {| spaces := spaces s ++ [(ns, [])]; imported := imported s ++ [(ns, initial_imports)];
      created := created s; loads := loads s; done := done s; links := links s; backs := backs s;
      serr := serr s |}.
 
@@ -186,13 +209,35 @@ Fixpoint first_def (s : st) (nss : list (list N)) (name : list N) : option cls :
 Definition imports_of (s : st) (cur : list N) : list (list N) :=
   match aget cur (imported s) with Some l => l | None => [] end.
 
-Definition lookup (s : st) (cur name : list N) : option cls :=
+(* the documented look-up *)
+Definition lookup_doc (s : st) (cur name : list N) : option cls :=
   match rsplit1 name with
   | Some (q, n) => lookup_in s q n
   | None => match lookup_in s cur name with
             | Some c => Some c
             | None => first_def s (imports_of s cur) name
             end
+  end.
+
+(* the look-up as found in the source: the generated search steps, in their order *)
+Fixpoint run_steps (steps : list lstep) (s : st) (cur name : list N) : option cls :=
+  match steps with
+  | [] => None
+  | st1 :: rest =>
+      let r := match st1 with
+               | LCurrent => lookup_in s cur name
+               | LBase => lookup_in s BASE name
+               | LImports rv skip =>
+                   let l := skipn skip (imports_of s cur) in
+                   first_def s (if rv then rev l else l) name
+               end in
+      match r with Some c => Some c | None => run_steps rest s cur name end
+  end.
+
+Definition lookup (s : st) (cur name : list N) : option cls :=
+  match (if qualified_split_last then rsplit1 name else split1 name) with
+  | Some (q, n) => lookup_in s q n
+  | None => run_steps lookup_steps s cur name
   end.
 
 (* ---------------------------------------------------------------- second pass *)
@@ -223,13 +268,24 @@ Definition second_pass (ns : list N) (f : gfile) (s : st) : st :=
 
 (* ---------------------------------------------------------------- loading *)
 (* _new_import inside the grammar [cur] whose ancestors (namespace stack) are [stk] *)
-Definition new_import (rec : list N -> st -> st) (stk : list (list N)) (cur imp : list N) (s : st) : st :=
+Definition new_import_doc (rec : list N -> st -> st) (stk : list (list N)) (cur imp : list N) (s : st) : st :=
   if has_err s then s else
   let a := abs_import cur imp in
   let s1 := if has_ns s a
             then (if mem_str a stk then note_back cur a s else s)
             else rec a (enter a s) in
   if has_err s1 then s1 else add_imported cur a s1.
+
+(* as found in the source: the import is registered on every import statement, or (if the
+   source only does it inside the load-once guard) only when the file is actually loaded *)
+Definition new_import (rec : list N -> st -> st) (stk : list (list N)) (cur imp : list N) (s : st) : st :=
+  if register_import_always then new_import_doc rec stk cur imp s
+  else
+    if has_err s then s else
+    let a := abs_import cur imp in
+    if has_ns s a
+    then (if mem_str a stk then note_back cur a s else s)
+    else let s1 := rec a (enter a s) in if has_err s1 then s1 else add_imported cur a s1.
 
 (* language_from_str for the grammar file of namespace ns (already entered):
    import statements first (each loads its file completely, both passes), then the rule
@@ -310,3 +366,28 @@ Definition ex_diamond : fsys :=
     ([98], {| gimports := [[100]]; grules := [ex_rule [88] [[87]]; ex_rule [89] []] |});
     ([99], {| gimports := [[100]]; grules := [ex_rule [89] [[87]]; ex_rule [87] []] |});
     ([100], {| gimports := []; grules := [ex_rule [87] []; ex_rule [88] []] |}) ]%N.
+
+(* number of rules of the grammar file of a namespace / of a list of namespaces *)
+Definition nrules (fs : fsys) (ns : list N) : nat :=
+  match aget ns fs with Some f => length (grules f) | None => 0 end.
+Definition nrules_of (fs : fsys) (l : list (list N)) : nat := list_sum (map (nrules fs) l).
+
+(* ---------------------------------------------------------------- harmless import cycles *)
+(* every name written in a grammar file (rule references and [Class] links) *)
+Definition file_names (f : gfile) : list (list N) := flat_map (fun r => rrefs r ++ rcrefs r) (grules f).
+
+(* An import of a grammar that is still being loaded, (importer, imported), is harmless when no
+   unqualified name of the importer could be meant for the imported grammar: each such name is
+   defined by the importer itself, is a built-in, or is not defined by the imported grammar. *)
+Definition safe_back (fs : fsys) (p : list N * list N) : bool :=
+  match aget (fst p) fs with
+  | None => true
+  | Some f => forallb (fun n => has_dot n || defines fs (fst p) n || is_base n || negb (defines fs (snd p) n))
+                      (file_names f)
+  end.
+Definition safe (fs : fsys) (s : st) : bool := forallb (safe_back fs) (backs s).
+
+(* a harmless cycle: a imports b and itself; b imports a back but only uses its own rules and built-ins *)
+Definition ex_harmless : fsys :=
+  [ ([97], {| gimports := [[98]; [97]]; grules := [ex_rule [77] [[88]; [89]]; ex_rule [88] []] |});
+    ([98], {| gimports := [[97]]; grules := [ex_rule [89] [[89]; [73;78;84]]] |}) ]%N.
